@@ -91,15 +91,23 @@ def c12_script(rng, stype, scen):
 SUBSYNC_OPS = ["sub:a", "sub:ab", "unsub:a", "unsub:ab", "join", "joinG", "fail1", "check"]
 
 
+SUBSYNC_REJOIN_OPS = ["sub:a", "sub:ab", "unsub:a", "rejoin1", "check"]     # histories in which a publisher with a fixed identity comes back
+
+
 def c13_script(seq, scen):
-    ops = [{"op": "attach", "c": 1, "ptype": "PUB"}]
-    n, gated = 1, False
+    ops = [{"op": "attach", "c": 1, "ptype": "PUB", "ident": dlvlib.S.hx("publisher-1")}]
+    n, gated, rejoined = 1, False, False
     for o in seq:
         if o.startswith("sub:") or o.startswith("unsub:"):
             ops.append({"op": o.split(":")[0], "t": o.split(":")[1]})
         elif o == "join":
             if n < 4:
                 n += 1; ops.append({"op": "attach", "c": n, "ptype": "XPUB" if n % 2 else "PUB"})
+        elif o == "rejoin1":
+            # a publisher with a fixed identity comes back while its old connection is still registered (half-open): it supersedes it
+            if 1 <= n < 4 and not rejoined:
+                n += 1; rejoined = True
+                ops.append({"op": "attach", "c": n, "ptype": "PUB", "ident": dlvlib.S.hx("publisher-1")})
         elif o == "joinG":
             if n < 4 and not gated:
                 n += 1; gated = True
